@@ -412,6 +412,19 @@ def eq_rules(facts, rep, D):
         rep.ob("R06.6", b.id, "eq compares the two filesystems by Arc::ptr_eq", has_ptr, "" if has_ptr else
                "paths of different filesystem instances with the same string compare equal", b.span)
         rep.ob("R06.6", b.id, "eq is the conjunction of both", conj, "", b.span)
+    # `!=` is what slices, Vecs and tuples of paths compare their elements with: it is the negation of `==` — the provided method, or an
+    # override that is literally `!self.eq(other)`; a hand-written second formula is a second definition of equality
+    for b2 in facts.bodies:
+        if b2.kind != "Closure" and b2.name == "ne" and b2.impl and (b2.impl.get("trait") or "").endswith("PartialEq") and \
+                b2.impl["self_ty"] in ("path::VfsPath", "async_vfs::path::AsyncVfsPath"):
+            cases = D.inter.ret_cases(b2)
+            neg = len(cases) == 1 and norm(cases[0][0])[0] == "un" and norm(cases[0][0])[1] == "Not" and \
+                norm(cases[0][0])[2][0] == "call" and norm(cases[0][0])[2][1] == "PartialEq::eq"
+            n += 1
+            rep.ob("R06.6", b2.id, "ne is the negation of eq", neg, "" if neg else
+                   "%s defines `!=` with a formula of its own: paths that are not `==` can fail to be `!=` (element comparison of "
+                   "collections uses `!=`)" % b2.impl["self_ty"], b2.span)
+
     return n
 
 
@@ -469,6 +482,15 @@ def totality(facts, rep, D):
             r = D.discharge(s)
             n += 1
             rep.ob("R06.1", b.id, s.desc, r is not None, ("%s: %s" % r) if r else (s.reason or "undischarged panic site in a path accessor"), s.line)
+    # ... nor can what join calls on its rejection path: the error constructors of error.rs (`VfsError::from(kind).with_path(arg)` is
+    # how a trailing slash is refused — an assertion about "normalised paths" there fires on the raw argument join reports)
+    for b in facts.bodies:
+        root = facts.body(b.root) if b.kind == "Closure" and b.root else b
+        if root is None or not (root.file == "src/error.rs" or root.file.endswith("/src/error.rs")):
+            continue
+        for s in inventory(facts, b):
+            r = D.discharge(s)
+            rep.ob("R06.1", b.id, s.desc, r is not None, ("%s: %s" % r) if r else (s.reason or "undischarged panic site on join's rejection path"), s.line)
     return n
 
 
